@@ -131,6 +131,19 @@ def implicit_names(ip) -> dict[str, str]:
             continue
         if node.bounds_constraint is not None:
             raise gio.NotModelled("computed repetition")
+        if node.internal_max is None:
+            # open-ended `{n,}` after /repo b48dd899: head `n*[wrapper] + [tail]`, tail `[] | [wrapper, tail]`
+            head_alts = list(ip._implicit_rules[head])
+            if len(head_alts) == 1 and len(head_alts[0]) == node.min + 1:
+                tail = head_alts[0][-1][0]
+                tail_alts = sorted((list(a) for a in ip._implicit_rules.get(tail, ())), key=len)
+                if len(tail_alts) == 2 and len(tail_alts[0]) == 0 and len(tail_alts[1]) == 2 \
+                        and tail_alts[1][1][0] == tail:
+                    out[head.name()] = f"<*{nid}:2*>"
+                    out[tail.name()] = f"<*{nid}:1*>"
+                    out[tail_alts[1][0][0].name()] = f"<*{nid}:0*>"
+                    continue
+            # otherwise: the capped compilation (before b48dd899), `node.max` = MAX_REPETITIONS
         d = node.max - node.min
         out[head.name()] = f"<*{nid}:{d + 1}*>"
         wrapper = None
@@ -453,10 +466,24 @@ def run_pool(tasks: list[dict], workers: int = 16, backstop_s: float = 60.0, fn=
 # model side
 # ------------------------------------------------------------------------------------------------
 
-def model_request(real: dict, task: dict, policy: str, fuel: int) -> dict:
+def current_variant() -> dict:
+    """the variant of the parser the source is now (translator); a refused translation raises MachineryError-free
+    ValueError: the callers report the refusal as a broken obligation before they get here"""
+    from harness import translate_earley
+    info = translate_earley.regenerate()
+    if info.get("variant") is None:
+        raise ValueError("translate_earley refused: " + "; ".join(info.get("refusals", [])))
+    return dict(info["variant"])
+
+
+def model_request(real: dict, task: dict, variant: dict, fuel: int, policy: Optional[str] = None) -> dict:
+    """`variant`: the translator's variant of the code; `policy` overrides its admission policy (the core recogniser)"""
     wj = task["word"]
-    return {"op": "parse", "grammar": real["grammar"], "cap": real["cap"], "start": task.get("start", "<start>"),
-            "policy": policy, "fuel": fuel,
+    v = dict(variant)
+    if policy is not None:
+        v["policy"] = policy
+    return {"op": "parse", "grammar": real["grammar"], "variant": v, "start": task.get("start", "<start>"),
+            "fuel": fuel,
             "input": {"bytes": wj["kind"] == "bytes", "cells": wj["cells"], "rlen": real.get("rlen", [])},
             "pred": real.get("pred", [])}
 
